@@ -36,11 +36,14 @@ fi
 OUT=/verif/seeded/$ID/$V; mkdir -p $OUT
 cp $PATCH $OUT/patch.diff; cp $SRC/zz_demo_test.go $OUT/demo_test.go.txt; cp $SRC/notes.md $OUT/notes.md
 viol=$(grep -c "^VIOLATION" $W/check.log 2>/dev/null)
+confirmed=$(grep "^VIOLATION" $W/check.log 2>/dev/null | grep -v "no-failing-input-found" | sed 's|.*replays/[A-Z0-9]*/||; s|\.json.*||' | tr '\n' ' ')
+# keep the generated replay tests of confirmed counterexamples
+for c in $confirmed; do cp "$W/out/replays/$ID/${c}_replay_test.go" "/verif/seeded/$ID/$V/replay_$(echo $c | tr -c 'A-Za-z0-9_.\n' '_' | cut -c1-80)_test.go.txt" 2>/dev/null; done
 obls=$(grep "^VIOLATION" $W/check.log 2>/dev/null | sed 's|.*replays/[A-Z0-9]*/||; s|\.json.*||' | head -6 | tr '\n' ' ')
 und=$(grep "^UNDECIDED" $W/check.log 2>/dev/null | cut -c1-300)
-python3 - "$ID" "$V" "$PKG" "$applies" "$suite" "$demo_with" "$demo_without" "$rc" "$viol" "$obls" "$und" "$OUT" "$(basename $PATCH)" <<'PY'
+python3 - "$ID" "$V" "$PKG" "$applies" "$suite" "$demo_with" "$demo_without" "$rc" "$viol" "$obls" "$und" "$OUT" "$(basename $PATCH)" "$confirmed" <<'PY'
 import json,sys
-id,v,pkg,applies,suite,dw,dwo,rc,viol,obls,und,out,pname=sys.argv[1:]
+id,v,pkg,applies,suite,dw,dwo,rc,viol,obls,und,out,pname,confirmed=sys.argv[1:]
 notes=open(out+'/notes.md').read()
 def section(*names):
     import re
@@ -54,7 +57,7 @@ meta={"property":id,"variant":v,"source":"independent sub-agent given only the p
  "demonstration":{"file":"demo_test.go.txt (copy to kernel/%s/zz_demo_test.go)"%pkg,"fails_with_change":dw=='fails',"passes_without_change":dwo=='passes'},
  "validated":{"patch_applies_to_repo_head":applies=='true',"existing_suite_with_change":suite,"confirmed":valid,"rebased_after_fix_commits":pname!='patch.diff'},
  "what_was_run":["git worktree of /repo HEAD in /root/scratch (removed afterwards)","git apply patch.diff","cd kernel && go test -vet=off -count=1 ./...  (existing suite with the change)","go test ./%s/ with the demonstration, with and without the change"%pkg,"GOVC_OUT=<scratch> /verif/bin/govc check -repo <worktree> -p %s"%id],
- "check_result":{"exit_code":int(rc),"violation_lines":int(viol or 0),"failed_obligations":obls.split(),"undecided":und,"detected":int(rc)==1 and int(viol or 0)>0}}
+ "check_result":{"exit_code":int(rc),"violation_lines":int(viol or 0),"failed_obligations":obls.split(),"undecided":und,"detected":int(rc)==1 and int(viol or 0)>0,"counterexamples_replayed_on_real_code":confirmed.split()}}
 json.dump(meta,open(out+'/meta.json','w'),indent=1)
 print(id,v,"valid" if valid else "NOT-CONFIRMED(applies=%s suite=%s demo_with=%s demo_without=%s)"%(applies,suite,dw,dwo),"detected" if meta['check_result']['detected'] else "NOT-DETECTED rc=%s %s"%(rc,und[:120]))
 PY
